@@ -20,7 +20,7 @@ def gen_line_unit(rng, ver, le, asz, lstr, comp_dir, primary):
     hdr = bytes([mil]) + (bytes([maxops]) if ver >= 4 else b'') + bytes([1]) + struct.pack('b', line_base) + bytes([line_range, opcode_base]) + bytes(std_lens)
     ndirs = rng.choice([0, 1, 2, 3])
     dirs = rng.sample(DIRS, ndirs)
-    nfiles = rng.choice([1, 2, 4])
+    nfiles = rng.choice([1, 2, 4] * 7 + [130])
     files = [(primary, 0)] + [(rng.choice(FILES[2:]), rng.randint(0, ndirs)) for _ in range(nfiles - 1)]
     if ver < 5:
         for d in dirs:
@@ -170,7 +170,7 @@ def gen_cfa_program(rng, caf, daf, cfa_reg, saved, n):
         elif k < 0.7 and free:
             r = free.pop()
             used.append(r)
-            off = rng.randint(1, 12)
+            off = rng.randint(0, 12)            # 0: saved exactly at the CFA
             if r < 0x40 and rng.random() < 0.8:
                 out += bytes([0x80 | r]) + uleb(off)
             else:
@@ -333,9 +333,11 @@ def gen_names_file(rng):
         # address ranges: one set per unit, header padded to a multiple of the tuple size
         body = struct.pack(E + 'HIBB', 2, unit_off, asz, 0)
         body += b'\0' * (-(len(aranges) + 4 + len(body)) % (2 * asz))
+        if i and rng.random() < 0.3:
+            ranges = []            # a unit without code (declarations only): an empty set behind a set with entries
         for lo, ln in ranges:
             body += struct.pack(A, lo) + struct.pack(A, ln)
-        if rng.random() < 0.2:
+        if rng.random() < 0.2 and ranges:
             body += struct.pack(A, code + 0x40) + struct.pack(A, 0)        # an empty function: address without length
         body += struct.pack(A, 0) * 2
         body += b'\0' * (-(len(body) + 4) % (2 * asz))
@@ -386,6 +388,8 @@ def gen_loc_file(rng):
         cu.root_name = 'unit%d.c' % i
         hp = (0x12, 0x01, struct.pack(A, low + size), None) if ver < 4 else (0x12, 0x07 if asz == 8 else 0x06, struct.pack(A, size), None)
         cu.root_attrs = [(0x11, 0x01, struct.pack(A, low), None), hp]
+        if rng.random() < 0.3:
+            cu.root_attrs.insert(0, (0x52, 0x01, struct.pack(A, low + 0x20), None))       # DW_AT_entry_pc: not the base of the lists
         lform = 0x17 if ver >= 4 else (0x06 if fmt == 32 else 0x07)
         O = E + ('I' if fmt == 32 else 'Q')
         fb = rng.choice([bytes([0x9c]), bytes([0x56]), bytes([0x77, 0x08])])
@@ -397,8 +401,8 @@ def gen_loc_file(rng):
             off = len(loc)
             pos = 0
             for e in range(rng.choice([1, 2, 3])):
-                # no base-address selection entries in .debug_loc: the clone follows the layout of readelf 2.41 for them
-                # ('offset base (base address)'), the 2.40 on this image prints 'offset ffffffff base (base address)'
+                if rng.random() < 0.15:
+                    loc += struct.pack(A, MAXA) + struct.pack(A, low + 0x100)  # base address selection: the following rows move
                 a = pos + rng.choice([0, 4, 0x10])
                 b = a + rng.choice([1, 8, 0x40])
                 pos = b
@@ -418,6 +422,8 @@ def gen_loc_file(rng):
             off = len(rngs)
             pos = 0
             for e in range(rng.choice([1, 2, 4])):
+                if rng.random() < 0.15:
+                    rngs += struct.pack(A, MAXA) + struct.pack(A, low + 0x100)         # base address selection: the following rows move
                 a = pos + rng.choice([0, 4, 0x20])
                 b = a + rng.choice([2, 0x10])
                 pos = b
